@@ -43,19 +43,36 @@ type ScriptMaker func(rng *rand.Rand) (plugin.Conf, plugin.Script, int)
 // plugin.RunCorrespondence, with a caller-supplied generator).
 func RunScripts(e *hx.Env, prop string, n int, mk ScriptMaker, mon plugin.Monitor, hits func(w *plugin.World, b *plugin.Batch)) *plugin.Batch {
 	b := &plugin.Batch{Stats: map[string]int{}, HistoryFlags: map[string]int{}}
+	shrunk := map[string]bool{}
+	// in chunks: a transcript carries a full digest per op and a world carries two fake clientsets - neither is kept
+	// longer than its chunk
+	const chunk = 400
+	for done := 0; done < n; done += chunk {
+		m := chunk
+		if n-done < m {
+			m = n - done
+		}
+		runChunk(e, prop, done, m, mk, mon, hits, b, shrunk)
+	}
+	return b
+}
+
+func runChunk(e *hx.Env, prop string, base, n int, mk ScriptMaker, mon plugin.Monitor, hits func(w *plugin.World, b *plugin.Batch),
+	b *plugin.Batch, shrunk map[string]bool) {
 	seeds := make([]int64, n)
 	for i := range seeds {
 		seeds[i] = e.Rng.Int63()
 	}
 	type res struct {
-		t    *plugin.Transcript
-		w    *plugin.World
-		d    *hx.Disagreement
-		err  error
-		seed int64
+		t     *plugin.Transcript
+		d     *hx.Disagreement
+		err   error
+		seed  int64
+		okOps int
 	}
 	results := make([]res, n)
 	var wg sync.WaitGroup
+	var hitMu sync.Mutex
 	sem := make(chan struct{}, 48)
 	for i := 0; i < n; i++ {
 		wg.Add(1)
@@ -66,16 +83,25 @@ func RunScripts(e *hx.Env, prop string, n int, mk ScriptMaker, mon plugin.Monito
 			rng := rand.New(rand.NewSource(seeds[i]))
 			conf, script, maxOps := mk(rng)
 			t, w, err := plugin.Execute(conf, rng, script, mon, maxOps)
-			r := res{t: t, w: w, err: err, seed: seeds[i]}
+			r := res{t: t, err: err, seed: seeds[i]}
 			if err == nil {
 				r.d, r.err = plugin.Compare(e, t)
+				if hits != nil && w != nil {
+					hitMu.Lock()
+					hits(w, b)
+					hitMu.Unlock()
+				}
+				r.okOps = countOK(t)
+				if r.d == nil {
+					t.Lines, t.Impl = nil, nil // the digests are no longer needed
+				}
 			}
 			results[i] = r
 		}(i)
 	}
 	wg.Wait()
-	shrunk := map[string]bool{}
-	for i, r := range results {
+	for j, r := range results {
+		i := base + j
 		if r.err != nil {
 			b.Errors = append(b.Errors, r.err.Error())
 			continue
@@ -85,16 +111,7 @@ func RunScripts(e *hx.Env, prop string, n int, mk ScriptMaker, mon plugin.Monito
 		for k, v := range r.t.Stats {
 			b.Stats[k] += v
 		}
-		if hits != nil && r.w != nil {
-			hits(r.w, b)
-		}
-		okOps := 0
-		for j, l := range r.t.Lines {
-			if l != "dump" && j > 0 && strings.HasPrefix(r.t.Impl[j], "ok") && !strings.HasPrefix(l, "sync") {
-				okOps++
-			}
-		}
-		if okOps >= 3 {
+		if r.okOps >= 3 {
 			b.Nontrivial = append(b.Nontrivial, strings.Join(r.t.Ops, "\n"))
 		} else {
 			b.Trivial++
@@ -142,7 +159,17 @@ func RunScripts(e *hx.Env, prop string, n int, mk ScriptMaker, mon plugin.Monito
 			b.Disagree = append(b.Disagree, d)
 		}
 	}
-	return b
+}
+
+// countOK counts the successful ops of a transcript (lister syncs not counted).
+func countOK(t *plugin.Transcript) int {
+	okOps := 0
+	for j, l := range t.Lines {
+		if l != "dump" && j > 0 && strings.HasPrefix(t.Impl[j], "ok") && !strings.HasPrefix(l, "sync") {
+			okOps++
+		}
+	}
+	return okOps
 }
 
 // RunFile executes one replay / corpus file: monitor + correspondence.
